@@ -69,6 +69,9 @@ type steps struct {
 	// receiving peer) advertises for it next to resource binding
 	extraFeat   func(st *steps) xmpp.StreamFeature
 	extraAdvert string
+	// the same advertisement in the first features list, where the double's
+	// prerequisites (authenticated) do not hold yet
+	extraAdvertEarly string
 }
 
 func hdr(ws bool, ns, from, to, id string) string {
@@ -240,8 +243,14 @@ func callbackFails(st *steps, which string) xmpp.StreamFeature {
 func withCallbackFailure(tr transcript, which string) transcript {
 	tr.name += "+feature whose " + which + " callback fails"
 	tr.prep = func(st *steps) {
-		st.extraFeat = func(st *steps) xmpp.StreamFeature { return callbackFails(st, which) }
-		st.extraAdvert = `<cb xmlns="urn:verif:cbfail"/>`
+		st.extraFeat = func(st *steps) xmpp.StreamFeature { return callbackFails(st, strings.TrimSuffix(which, "-early")) }
+		if strings.HasSuffix(which, "-early") {
+			// advertised while the feature is not negotiable (its prerequisites
+			// do not hold): its Parse callback still runs and still fails
+			st.extraAdvertEarly = `<cb xmlns="urn:verif:cbfail"/>`
+		} else {
+			st.extraAdvert = `<cb xmlns="urn:verif:cbfail"/>`
+		}
 	}
 	return tr
 }
@@ -340,9 +349,9 @@ func fullInitiator(ws bool, withVol bool, volFails bool, s2s bool) transcript {
 				st.n++
 				switch {
 				case st.n == 1 && !ws:
-					return []byte(h + features(ws, `<starttls xmlns="`+tlsNS+`"><required/></starttls>`))
+					return []byte(h + features(ws, `<starttls xmlns="`+tlsNS+`"><required/></starttls>`+st.extraAdvertEarly))
 				case (st.n == 2 && !ws) || (st.n == 1 && ws):
-					return []byte(h + features(ws, `<mechanisms xmlns="`+saslNS+`"><mechanism>PLAIN</mechanism></mechanisms>`))
+					return []byte(h + features(ws, `<mechanisms xmlns="`+saslNS+`"><mechanism>PLAIN</mechanism></mechanisms>`+st.extraAdvertEarly))
 				default:
 					vol := ""
 					if withVol {
@@ -487,9 +496,17 @@ func transcripts() []transcript {
 type fault struct {
 	kind string // none cut readerr readtimeout writeerr writetimeout writelate cancel precancel block
 	n    int
+	// the call's context also carries a deadline far in the future (it is a
+	// cancellable child of a context with an overall time limit)
+	farDeadline bool
 }
 
-func (f fault) String() string { return fmt.Sprintf("%s@%d", f.kind, f.n) }
+func (f fault) String() string {
+	if f.farDeadline {
+		return fmt.Sprintf("%s@%d(context also has a deadline one hour away)", f.kind, f.n)
+	}
+	return fmt.Sprintf("%s@%d", f.kind, f.n)
+}
 
 type result struct {
 	s        *xmpp.Session
@@ -523,7 +540,13 @@ func runWith(tr transcript, f fault, plainRW bool) result {
 	if tr.prep != nil {
 		tr.prep(st)
 	}
-	ctx, cancel := context.WithCancel(context.Background())
+	parent := context.Background()
+	if f.farDeadline {
+		var pcancel context.CancelFunc
+		parent, pcancel = context.WithTimeout(parent, time.Hour)
+		defer pcancel()
+	}
+	ctx, cancel := context.WithCancel(parent)
 	defer cancel()
 	if f.kind == "precancel" {
 		cancel() // the context has ended before the call is made
@@ -571,7 +594,10 @@ func runWith(tr transcript, f fault, plainRW bool) result {
 			cancel()
 			// give the library the chance to act on the cancellation before the
 			// operation proceeds (the harness owns the clock)
-			for i := 0; i < 200 && !peer.Conn.DeadlineSet(); i++ {
+			// (bounded by 3 s, not by a few milliseconds: on a loaded machine the
+			// library's watcher goroutine may be scheduled late, and an operation
+			// that simply overtook the cancellation is no violation)
+			for i := 0; i < 30000 && !peer.Conn.DeadlineSet(); i++ {
 				time.Sleep(100 * time.Microsecond)
 				runtime.Gosched()
 			}
@@ -732,31 +758,31 @@ func TestC04Sweep(t *testing.T) {
 		for n := 0; n < base.fed; n++ {
 			landsInFeatures := len(base.bounds) > 0 && n > base.bounds[0]
 			ev.Case(landsInFeatures, fmt.Sprintf("%s cut@%d", tr.name, n), "cut", "transcript:"+tr.name)
-			checkFault(t, tr, fault{"cut", n}, n%2 == 0, base)
+			checkFault(t, tr, fault{kind: "cut", n: n}, n%2 == 0, base)
 		}
 		for n := 0; n < base.reads; n++ {
 			ev.Case(n > 0, fmt.Sprintf("%s readerr@%d", tr.name, n), "readerr")
-			checkFault(t, tr, fault{"readerr", n}, false, base)
+			checkFault(t, tr, fault{kind: "readerr", n: n}, false, base)
 		}
 		for n := 0; n < base.writes; n++ {
 			ev.Case(n > 0, fmt.Sprintf("%s writeerr@%d", tr.name, n), "writeerr")
-			checkFault(t, tr, fault{"writeerr", n}, true, base)
+			checkFault(t, tr, fault{kind: "writeerr", n: n}, true, base)
 		}
 		for n := 0; n < base.reads; n++ {
 			ev.Case(true, fmt.Sprintf("%s readtimeout@%d", tr.name, n), "read-fails-with-timeout-error")
-			checkFault(t, tr, fault{"readtimeout", n}, n%3 == 2, base)
+			checkFault(t, tr, fault{kind: "readtimeout", n: n}, n%3 == 2, base)
 		}
 		for n := 0; n < base.writes; n++ {
 			ev.Case(true, fmt.Sprintf("%s writetimeout@%d", tr.name, n), "write-fails-with-timeout-error")
-			checkFault(t, tr, fault{"writetimeout", n}, n%3 == 2, base)
+			checkFault(t, tr, fault{kind: "writetimeout", n: n}, n%3 == 2, base)
 		}
 		for n := 0; n < base.writes; n++ {
 			ev.Case(true, fmt.Sprintf("%s writelate@%d", tr.name, n), "write-delivered-but-reported-failed")
-			checkFault(t, tr, fault{"writelate", n}, n%2 == 0, base)
+			checkFault(t, tr, fault{kind: "writelate", n: n}, n%2 == 0, base)
 		}
 		for n := 0; n < base.ops; n++ {
 			ev.Case(n > 1, fmt.Sprintf("%s cancel@%d", tr.name, n), "cancel-before-op")
-			checkFault(t, tr, fault{"cancel", n}, false, base)
+			checkFault(t, tr, fault{kind: "cancel", n: n}, false, base)
 		}
 		for _, plain := range []bool{true, false} {
 			ev.Case(true, fmt.Sprintf("%s precancel plain=%v", tr.name, plain), "precancel")
@@ -767,7 +793,13 @@ func TestC04Sweep(t *testing.T) {
 		}
 		for n := 0; n < len(base.bounds); n++ {
 			ev.Case(n > 0, fmt.Sprintf("%s block@%d", tr.name, n), "cancel-while-read-blocked")
-			checkFault(t, tr, fault{"block", n}, false, base)
+			checkFault(t, tr, fault{kind: "block", n: n}, false, base)
+			ev.Case(true, fmt.Sprintf("%s block@%d far-deadline", tr.name, n), "cancel-while-read-blocked", "context-with-far-deadline")
+			checkFault(t, tr, fault{kind: "block", n: n, farDeadline: true}, false, base)
+		}
+		for n := 0; n < base.ops; n += 1 + base.ops/8 {
+			ev.Case(true, fmt.Sprintf("%s cancel@%d far-deadline", tr.name, n), "cancel-before-op", "context-with-far-deadline")
+			checkFault(t, tr, fault{kind: "cancel", n: n, farDeadline: true}, false, base)
 		}
 	}
 }
@@ -798,7 +830,7 @@ func TestC04ReusedNegotiator(t *testing.T) {
 			if !plain {
 				for n := 0; n < base.ops; n += 1 + base.ops/6 {
 					ev.Case(true, fmt.Sprintf("%s reused-negotiator cancel@%d", tr.name, n), "negotiator-reused", "cancel-before-op")
-					checkFault(t, tr, fault{"cancel", n}, false, base)
+					checkFault(t, tr, fault{kind: "cancel", n: n}, false, base)
 				}
 			}
 		}
@@ -826,7 +858,8 @@ func TestC04FailingStep(t *testing.T) {
 	ev.Begin(t)
 	for _, tr := range []transcript{fullInitiator(false, true, true, false), fullReceiver(false, true, true), fullInitiator(true, true, true, false), fullReceiver(true, true, true),
 		withCallbackFailure(fullReceiver(false, false, false), "list"), withCallbackFailure(fullReceiver(true, false, false), "list"), withCallbackFailure(fullReceiver(false, true, false), "list"),
-		withCallbackFailure(fullInitiator(false, false, false, false), "parse"), withCallbackFailure(fullInitiator(true, false, false, false), "parse")} {
+		withCallbackFailure(fullInitiator(false, false, false, false), "parse"), withCallbackFailure(fullInitiator(true, false, false, false), "parse"),
+		withCallbackFailure(fullInitiator(false, false, false, false), "parse-early"), withCallbackFailure(fullInitiator(true, false, false, false), "parse-early")} {
 		r := runWith(tr, fault{kind: "none"}, false)
 		ev.Case(true, tr.name+" fault-free", "failing-voluntary-step")
 		base := result{}
@@ -862,6 +895,6 @@ func TestC04Random(t *testing.T) {
 		n := rapid.IntRange(0, max-1).Draw(rt, "n")
 		plain := rapid.Bool().Draw(rt, "plainrw") && kind != "cancel"
 		ev.Case(n > 0, fmt.Sprintf("%s %s@%d plain=%v", tr.name, kind, n, plain), "random-"+kind)
-		checkFault(rt, tr, fault{kind, n}, plain, base)
+		checkFault(rt, tr, fault{kind: kind, n: n}, plain, base)
 	})
 }
